@@ -141,6 +141,38 @@ C10_REPS_QUICK = ('ndarray', 'ma_nomask', 'ma_empty', 'ma_masked', 'quantity', '
 C10_REPS_THOROUGH = C10_REPS_QUICK + ('strided', 'fortran', 'float32', 'bigendian', 'ma_error')
 C15_REPS = ('f4', 'i4', 'i8', 'be', 'F', 'strided', 'ma_empty', 'ma_nomask', 'nddata', 'quantity')
 C15_MIXED = ('mixed_data', 'mixed_companion')
+NDDATA_REPS = ('nddata', 'nddata_q')      # 'nddata_q' (C15): NDData with a unit + Quantity companions
+# --- dtype x byte-order axis (C15) -------------------------------------------
+# numpy dtype string of every dtype-only representation (C-contiguous ndarray).
+DTYPE_OF_REP = collections.OrderedDict([
+    ('f4', '<f4'), ('float32', '<f4'), ('be', '>f8'), ('bigendian', '>f8'), ('i4', '<i4'), ('i8', '<i8'),
+    ('i2', '<i2'), ('i1', '|i1'), ('u1', '|u1'), ('u2', '<u2'), ('u4', '<u4'), ('u8', '<u8'),
+    ('be_f4', '>f4'), ('be_i2', '>i2'), ('be_i4', '>i4'), ('be_i8', '>i8'), ('be_u2', '>u2'), ('be_u4', '>u4'), ('be_u8', '>u8'),
+])
+# full product {f8, f4, i1, i2, i4, i8, u1, u2, u4, u8} x {little, big endian} minus the float64 little-endian baseline
+# (one-byte types have no byte order); the first four are the members of C15_REPS above
+C15_DTYPE_REPS = ('f4', 'i4', 'i8', 'be', 'i2', 'i1', 'u1', 'u2', 'u4', 'u8',
+                  'be_f4', 'be_i2', 'be_i4', 'be_i8', 'be_u2', 'be_u4', 'be_u8')
+# A dtype can only hold "the same numbers" if the numbers fit: the *value domain* of a run clips the image-like
+# arguments (data after the caller's background subtraction, error, background, convolved data) to the range every
+# dtype of the class holds; the float64 baseline of a representation is run in the same domain.
+DOMAINS = collections.OrderedDict([('full', (None, None)),       # the scene as it is (|values| < 2**15): signed types >= 16 bit, floats
+                                   ('nonneg', (0.0, None)),      # negative pixels clipped to 0: unsigned types >= 16 bit
+                                   ('byte', (0.0, 127.0))])      # a faint 7-bit image: uint8 and int8 (see BYTE_SCALE)
+# The 'byte' domain is a fainter exposure of the same scene: data, background and every threshold-like scalar are
+# multiplied by BYTE_SCALE (the brightest pixel, about 830, becomes about 124) and the images rounded to integers
+# again; the error map is left as it is (values 4..30: they fit, and their squares do not fit into 8 bits).
+BYTE_SCALE = 0.15
+DOMAIN_OF_REP = {'u2': 'nonneg', 'u4': 'nonneg', 'u8': 'nonneg', 'be_u2': 'nonneg', 'be_u4': 'nonneg', 'be_u8': 'nonneg',
+                 'u1': 'byte', 'i1': 'byte'}
+# --- one companion at a time (C15) --------------------------------------------
+# 'solo_plain:<slot>': data and every companion carry the unit, <slot> alone is a plain number;
+# 'solo_unit:<slot>':  data and every companion are plain, <slot> alone carries the unit;
+# 'other_unit:<slot>': everything carries the unit, <slot> is given in a convertible but different unit (mJy instead
+#                      of Jy, the numbers multiplied by 1000: the same physical quantity)
+C15_SOLO = ('solo_plain', 'solo_unit', 'other_unit')
+# thorough tier: the full product (dtype x byte order) x memory layout, written 'dtype@layout'
+C15_LAYOUTS = ('F', 'strided')
 
 # --- geometry axis (C10) ----------------------------------------------------
 # Whether an intermediate array of the implementation is a *view* of the
@@ -165,6 +197,9 @@ FRAMES = collections.OrderedDict([
     ('row', (slice(14, 15), slice(0, 47))),              # 1x47: one-row image through the source
     ('col', (slice(0, 41), slice(17, 18))),              # 41x1: one-column image through the source
 ])
+# Geometries that differ from 'base' / 'tight' only for Fortran-ordered data (a run of complete columns is contiguous in
+# Fortran order only): enumerated where the 'fortran' representation is, i.e. in the thorough tier.
+GEOMS_THOROUGH_ONLY = ('fullheight',)
 # Extra "bad" pixels used for every geometry other than 'base' (the base scene is
 # shared with C15 and stays as it was), placed in row 14 and column 17 so that
 # the one-row / one-column frames (and the small frames) contain a pixel of
@@ -365,7 +400,10 @@ class Raised:
     def __init__(self, exc):
         self.type = type(exc).__name__
         self.msg = str(exc)[:300]
-        self.is_rejection = isinstance(exc, (ValueError, TypeError))    # includes astropy UnitsError / UnitTypeError
+        import astropy.units as u
+        # astropy's UnitConversionError / UnitTypeError derive from ValueError / TypeError, the plain UnitsError
+        # (astropy >= 7) only from Exception: raising it is a deliberate rejection of the units as well
+        self.is_rejection = isinstance(exc, (ValueError, TypeError, u.UnitsError))
 
     def __repr__(self):
         return f'raised {self.type}: {self.msg}'
@@ -455,11 +493,25 @@ class Ctx:
     """Hands out arguments in one representation / data condition, executes
     steps, watches the caller-held objects."""
 
-    def __init__(self, rep, cond, seed, integer_scene=False, scale=1.0, maskform='cond', geom='base'):
+    def __init__(self, rep, cond, seed, integer_scene=False, scale=1.0, maskform='cond', geom='base', domain='full'):
         import astropy.units as u
+        self.domain = domain                 # value domain (C15): see DOMAINS
+        # companion slots (C15, one companion at a time): every unit-ful companion argument handed out has a slot name
+        self.solo = tuple(rep.split(':', 1)) if ':' in rep else None      # (mode, slot)
+        self.slots = collections.OrderedDict()      # slot name -> number of hand-outs
+        self.step_slots = {}                        # step label -> slots the call receives (directly or through an object built from them)
+        self._slot_refs = {}                        # id(obj) -> (obj, {slots}): objects that carry a companion
+        self._pending = set()                       # slots handed out outside a step and not yet attached to a held / carried object
+        self._loose = set()                         # ... those of them that are scalars (not recognisable by identity)
+        self._built = set()                         # ids of carried objects that are results of steps (stateful objects)
+        self.step_built = {}                        # step label -> ids of such objects the call receives
+        self.uncast = []                            # arguments left float64 because the integer dtype cannot hold their values
+        self._running = None                        # slots handed out while the current step runs
         self.rep = rep
         self.cond = cond
         self.seed = seed
+        if domain == 'byte':
+            scale = scale * BYTE_SCALE
         self.scale = scale
         self.maskform = maskform
         self.geom = geom
@@ -467,6 +519,10 @@ class Ctx:
         self.sc = scene(cond, seed, integer=integer_scene, maskform=maskform, extra=(geom != 'base'))
         if scale != 1.0:
             for k in ('data', 'error', 'background'):
+                if domain == 'byte':
+                    if k != 'error':
+                        self.sc[k] = np.round(self.sc[k] * scale)
+                    continue
                 self.sc[k] = self.sc[k] * scale
         self.unit = u.Jy
         self.held = collections.OrderedDict()
@@ -481,20 +537,84 @@ class Ctx:
     # ---- representation helpers -------------------------------------------
     @property
     def unitful_data(self):
-        return self.rep in ('quantity', 'mixed_data')
+        return self.rep in ('quantity', 'mixed_data') or (self.solo is not None and self.solo[0] in ('solo_plain', 'other_unit'))
 
     @property
     def unitful_companion(self):
-        return self.rep in ('quantity', 'mixed_companion')
+        return self.rep in ('quantity', 'mixed_companion', 'nddata_q')
 
-    def q(self, value, kind='companion'):
-        """A threshold-like scalar (or array) carrying the data unit when the
-        representation is unit-ful."""
+    def slot_mode(self, slot):
+        """'plain' | 'unit' | 'other' (convertible but different unit) for the
+        companion ``slot`` in this representation."""
+        if self.solo is not None:
+            mode, s = self.solo
+            if mode == 'solo_plain':
+                return 'plain' if s == slot else 'unit'
+            if mode == 'solo_unit':
+                return 'unit' if s == slot else 'plain'
+            if mode == 'other_unit':
+                return 'other' if s == slot else 'unit'
+        return 'unit' if self.unitful_companion else 'plain'
+
+    def _companion(self, slot, value, unit=None, power=1):
+        """``value`` as the companion ``slot``: a plain number, a Quantity in
+        ``unit`` (default: the data unit) or the same physical quantity in the
+        other unit (mJy in place of Jy; ``power``: the power of the data unit
+        in ``unit``).  Records which step / object receives the slot."""
+        import astropy.units as u
         self.uses_companion = True
-        value = value * self.scale
-        if self.unitful_companion:
-            return value * self.unit
+        self.slots[slot] = self.slots.get(slot, 0) + 1
+        mode = self.slot_mode(slot)
+        if mode != 'plain':
+            unit = self.unit if unit is None else unit
+            value = value * unit
+            if mode == 'other':
+                value = value.to(unit * (u.mJy / u.Jy) ** power)
+        if self._running is not None:
+            self._running.add(slot)
+        else:
+            self._pending.add(slot)
+        if isinstance(value, np.ndarray) and value.ndim:
+            self._carry(value, {slot})       # an array is recognised by identity wherever it is passed
+        elif self._running is None:
+            self._loose.add(slot)            # a scalar made outside a step must be attached with hold() / carry()
         return value
+
+    def _carry(self, obj, slots):
+        if slots:
+            old = self._slot_refs.get(id(obj))
+            self._slot_refs[id(obj)] = (obj, set(slots) | (old[1] if old is not None and old[0] is obj else set()))
+
+    def carry(self, obj):
+        """``obj`` was built (outside a step) from the companions handed out
+        since the last hold / carry / step: a call that receives it receives them."""
+        self._carry(obj, self._pending)
+        self._pending = set()
+        self._loose = set()
+        return obj
+
+    def _slots_of(self, thunk):
+        """Slots carried by the objects a step's thunk refers to."""
+        out = set()
+        for cell in (getattr(thunk, '__closure__', None) or ()):
+            try:
+                v = cell.cell_contents
+            except ValueError:
+                continue
+            ref = self._slot_refs.get(id(v))
+            if ref is not None and ref[0] is v:
+                out |= ref[1]
+        return out
+
+    def q(self, value, name=None, unit=None, power=1, scaled=True):
+        """A threshold-like scalar (or array) carrying the data unit when the
+        representation is unit-ful.  ``name``: companion slot (default: named
+        after the value)."""
+        if name is None:
+            name = 'q=%g' % value if np.ndim(value) == 0 else 'q=array'
+        if scaled:
+            value = value * self.scale
+        return self._companion(name, value, unit=unit, power=power)
 
     def hold(self, name, obj):
         """Register a caller-held object to be watched (snapshot taken now if
@@ -502,6 +622,8 @@ class Ctx:
         self.held[name] = obj
         if self.before is not None:
             self.before[name] = snap(obj)
+        if self._pending and not name.endswith('.base'):
+            self.carry(obj)
         return obj
 
     def exempt(self, name):
@@ -510,8 +632,14 @@ class Ctx:
         self.held.pop(name + '.base', None)
 
     def _layout(self, name, a, fill, cast=True):
-        """Memory layout / dtype part of the representation (no container)."""
+        """Memory layout / dtype part of the representation (no container).
+        'dtype@layout' (C15, thorough): the cast first, then the layout."""
         rep = self.rep
+        if '@' in rep:
+            dt, rep = rep.split('@', 1)
+            if cast and a.dtype.kind == 'f':
+                a = self._cast(name, a, dt)
+            cast = False
         if rep == 'view':
             parent = np.pad(a, 3, constant_values=fill)
             self.hold(name + '.base', parent)
@@ -526,15 +654,36 @@ class Ctx:
         if rep in ('fortran', 'F'):
             return np.asfortranarray(a)
         if cast and a.dtype.kind == 'f':
-            if rep in ('float32', 'f4'):
-                return a.astype('<f4')
-            if rep in ('bigendian', 'be'):
-                return a.astype('>f8')
-            if rep == 'i4':
-                return a.astype('<i4')
-            if rep == 'i8':
-                return a.astype('<i8')
+            return self._cast(name, a, rep)
         return a.copy()
+
+    def _cast(self, name, a, rep):
+        """dtype part of the representation (always a new array)."""
+        if rep in ('float32', 'f4'):
+            return a.astype('<f4')
+        if rep in ('bigendian', 'be'):
+            return a.astype('>f8')
+        if rep == 'i4':
+            return a.astype('<i4')
+        if rep == 'i8':
+            return a.astype('<i8')
+        if rep in DTYPE_OF_REP:
+            # the remaining members of the dtype x byte-order axis; an integer type is used only where it holds
+            # the numbers exactly (e.g. a kernel with values up to 300 stays float64 next to a uint8 image)
+            b = a.astype(DTYPE_OF_REP[rep])
+            if b.dtype.kind == 'f' or np.array_equal(b.astype(float), a):
+                return b
+            self.uncast.append(name)
+        return a.copy()
+
+    def _dom(self, a):
+        """Clip an image-like argument to the value domain of the run."""
+        lo, hi = DOMAINS[self.domain]
+        if lo is None and hi is None:
+            return a
+        if self.domain == 'byte':
+            a = np.round(a)
+        return np.clip(a, lo, hi)
 
     def _cut(self, a, region):
         if region is None:
@@ -599,9 +748,10 @@ class Ctx:
         if kind == 'aux' or a.dtype.kind == 'b':
             return self.hold(name, self._layout(name, a, 0 if a.dtype.kind != 'b' else False, cast=False))
         if kind == 'companion':
-            self.uses_companion = True
-            if self.unitful_companion:
-                return self.hold(name, a * self.unit)
+            q = self._companion(name, self._dom(a))      # slot = the argument's name; hold() below attaches it to the object
+            if self.slot_mode(name) != 'plain':
+                return self.hold(name, q)
+            a = q
             if rep == 'ma_error':
                 return self.hold(name, np.ma.MaskedArray(a, mask=np.zeros(a.shape, bool)))
             return self.hold(name, self._layout(name, a, 1))
@@ -624,7 +774,7 @@ class Ctx:
         ``offset`` is added first (a caller subtracting the background)."""
         from astropy.nddata import NDData, StdDevUncertainty
         self.uses_data = True
-        a = self._cut(self.sc['data'], region) + offset * self.scale
+        a = self._dom(self._cut(self.sc['data'], region) + offset * self.scale)     # ('byte' domain: rounded to integers again)
         if self.cond == 'int' and self.rep not in ('i4', 'i8', 'f4', 'float32', 'be', 'bigendian'):
             a = a.astype(np.int32)
         rep = self.rep
@@ -633,18 +783,20 @@ class Ctx:
             for (y, x) in MA_MASK_PIX + (EXTRA_MA_MASK_PIX if self.geom != 'base' else ()):
                 m[y, x] = True
             return self.hold(name, np.ma.MaskedArray(a.copy(), mask=self._cut(m, region).copy()))
-        if rep == 'nddata':
+        if rep in NDDATA_REPS:
             if not nddata_ok:
                 raise NotApplicable('entry does not accept NDData')
             e = self._cut(self.sc['error'], region).copy()
             m = self._cut(self.sc['mask'], region).copy() if self.sc['mask'] is not None else None
-            return self.hold(name, NDData(a.copy(), uncertainty=StdDevUncertainty(e), mask=m, wcs=nd_wcs))
+            # 'nddata_q' (C15): the NDData carries the unit (its uncertainty inherits it), companions are Quantities
+            return self.hold(name, NDData(a.copy(), uncertainty=StdDevUncertainty(e), mask=m, wcs=nd_wcs,
+                                          unit=self.unit if rep == 'nddata_q' else None))
         return self.array(name, a, kind='data')
 
     def error(self, region=None, name='error', kind='error'):
         """A companion array (error / background) in the representation."""
         self.uses_companion = True
-        if self.rep == 'nddata' and kind == 'error':
+        if self.rep in NDDATA_REPS and kind == 'error':
             return None
         return self.array(name, self._cut(self.sc[kind], region), kind='companion')
 
@@ -652,7 +804,7 @@ class Ctx:
         return self.error(region, name, kind='background')
 
     def mask(self, region=None, name='mask', even_for_nddata=False):
-        if (self.rep == 'nddata' and not even_for_nddata) or self.sc['mask'] is None:
+        if (self.rep in NDDATA_REPS and not even_for_nddata) or self.sc['mask'] is None:
             return None
         return self.array(name, self._cut(self.sc['mask'], region), kind='aux')
 
@@ -664,14 +816,23 @@ class Ctx:
     def arm(self):
         self.before = {k: snap(v) for k, v in self.held.items()}
 
-    def step(self, label, thunk, keep_output=True, mix=False):
+    def step(self, label, thunk, keep_output=True, mix=False, ignores=()):
         """``mix``: the call receives the data AND a unit-ful companion argument
         (error, background, threshold, flux): C15 demands that it raises when
-        only one of the two carries units."""
+        only one of the two carries units.  ``ignores``: companion slots carried
+        by an object the call receives but documented not to be used by it."""
         if self.before is None:
             self.arm()
         if mix:
             self.mix_steps.add(label)
+        if self._loose:
+            raise AssertionError(f'recipe error before step {label!r}: scalar companion(s) {sorted(self._loose)} made outside a step '
+                                 'must be attached to the object built from them with hold() / carry()')
+        self._pending = set()
+        # companions the call receives: carried by the objects the thunk refers to + handed out while it runs
+        self._running = self._slots_of(thunk)
+        self.step_built[label] = {id(cell.cell_contents) for cell in (getattr(thunk, '__closure__', None) or ())
+                                  if _cell_filled(cell) and id(cell.cell_contents) in self._built}
         try:
             with warnings.catch_warnings():
                 warnings.simplefilter('ignore')
@@ -686,6 +847,13 @@ class Ctx:
             status = 'ok'
             if keep_output:
                 self.out[label] = res
+        finally:
+            used, self._running = self._running, None
+        used -= set(ignores)
+        self.step_slots[label] = used
+        if res is not None and used and not isinstance(res, (bool, int, float, str)):
+            self._carry(res, used)           # an object built from companions carries them into the calls that receive it
+            self._built.add(id(res))
         self.steps.append((label, status))
         hit = set()
         for k, v in self.held.items():
@@ -715,6 +883,14 @@ class Ctx:
                 self.step(f'{label}.{name}', lambda n=name: getattr(obj, n))
             elif kind == 'method0':
                 self.step(f'{label}.{name}()', lambda n=name: getattr(obj, n)())
+
+
+def _cell_filled(cell):
+    try:
+        cell.cell_contents
+    except ValueError:
+        return False
+    return True
 
 
 class NotApplicable(Exception):
@@ -779,13 +955,13 @@ def recipe(name, covers, nddata=False, units=False, numeric=True, slow=False, ax
     return deco
 
 
-def run_recipe(name, rep, cond, seed, integer_scene=False, scale=1.0, maskform='cond', geom='base'):
+def run_recipe(name, rep, cond, seed, integer_scene=False, scale=1.0, maskform='cond', geom='base', domain='full'):
     """Execute one recipe; returns the context (steps, changes, outputs) or
     None when the combination is not applicable."""
     r = RECIPES[name]
-    if (rep == 'nddata' and not r.nddata) or geom not in r.geoms:
+    if (rep in NDDATA_REPS and not r.nddata) or geom not in r.geoms:
         return None
-    c = Ctx(rep, cond, seed, integer_scene=integer_scene, scale=scale, maskform=maskform, geom=geom)
+    c = Ctx(rep, cond, seed, integer_scene=integer_scene, scale=scale, maskform=maskform, geom=geom, domain=domain)
     try:
         with warnings.catch_warnings():
             warnings.simplefilter('ignore')
